@@ -17,7 +17,7 @@ ASSUMPTIONS = [
     'dyadic cases make every comparison exact, so ties there are decisive; in inexact cases increments within '
     '8 eps of threshold*step are tie-ambiguous and never decide',
 ]
-SIZES = {'quick': dict(n=1400, cli=60, sub=0, field=0), 'thorough': dict(n=48000, cli=1600, sub=0, field=48)}
+SIZES = {'quick': dict(n=3200, cli=80, sub=0, field=0), 'thorough': dict(n=48000, cli=1600, sub=0, field=48)}
 REQUIRED = {
     tier: {
         'classifications-completed': 100,
